@@ -3,6 +3,7 @@
 package parser
 
 import (
+	"fmt"
 	"reflect"
 	"strconv"
 
@@ -323,6 +324,9 @@ func vNameStartByte(c byte) bool {
 //@   modifies tk.pos
 //@   ensures result != nil ==> old(tk.pos) < tk.pos
 //@   ensures result == nil ==> tk.pos == old(tk.pos)
+// CSS Syntax 3 §4.3.12: the type flag is "integer" when the representation has neither a fraction nor an exponent: the
+// representation is read as a DECIMAL integer, leading zeros included (`08` is the integer 8, not a bad octal)
+//@   call ParseInt#1 assert[integer-flag-read-in-base-ten] arg0 == value && arg1 == 10
 
 //@ func (*tokenizer).tryConsumeHash
 //@   props C06 C07 C01
@@ -1154,3 +1158,68 @@ func VNthTok(t Token) bool {
 //@   ensures result0 == "" && typeIs(functionToken_, FunctionBlock) && functionToken_.(FunctionBlock).Name != "" ==> len(result1) == 0
 //@   loop 1 invariant fresh(arguments)
 //@   unclaimed call-RemoveWhitespace@1-pre1 "token lists produced by the tokenizer contain no nil token: data invariant not tracked through nested blocks"
+
+// bounded stand-in (C06, "type flag"): strconv.ParseInt is outside the contracts. vIntegerFlag tokenizes every
+// number made of one to four digits over 0, 1, 7, 8, 9 with an optional sign and an optional `px` / `%` suffix
+// (7 020 texts) and some fractions and exponents: one numeric token, flagged integer exactly when the text has
+// neither `.` nor an exponent, with the decimal value of its digits.
+func vIntegerFlag() (n int, fails []string) {
+	digits := []string{"0", "1", "7", "8", "9"}
+	var reps []string
+	var rec func(prefix string)
+	rec = func(prefix string) {
+		if prefix != "" {
+			reps = append(reps, prefix)
+		}
+		if len(prefix) == 4 {
+			return
+		}
+		for _, d := range digits {
+			rec(prefix + d)
+		}
+	}
+	rec("")
+	check := func(text string, wantInt bool, want int) {
+		n++
+		toks := Tokenize([]byte(text), false)
+		var nv numberVal
+		switch t := toks[0].(type) {
+		case Number:
+			nv = t.numberVal
+		case Dimension:
+			nv = t.numberVal
+		case Percentage:
+			nv = t.numberVal
+		default:
+			if len(fails) < 6 {
+				fails = append(fails, fmt.Sprintf("%q: first token is %T", text, toks[0]))
+			}
+			return
+		}
+		if (len(toks) != 1 || nv.IsInt() != wantInt || (wantInt && nv.Int() != want)) && len(fails) < 6 {
+			fails = append(fails, fmt.Sprintf("%q: %d tokens, integer flag %v, value %d; expected one token, integer %v, value %d", text, len(toks), nv.IsInt(), nv.Int(), wantInt, want))
+		}
+	}
+	for _, rep := range reps {
+		v := 0
+		for _, c := range rep {
+			v = v*10 + int(c-'0')
+		}
+		for _, sign := range []string{"", "+", "-"} {
+			for _, suffix := range []string{"", "px", "%"} {
+				w := v
+				if sign == "-" {
+					w = -v
+				}
+				check(sign+rep+suffix, true, w)
+			}
+		}
+	}
+	for _, text := range []string{"1.0", "08.5", "1e2", "08e1", "0.0", "9E+1px", ".5"} {
+		check(text, false, 0)
+	}
+	return n, fails
+}
+
+//@ bounded vIntegerFlag every number of one to four digits over 0, 1, 7, 8, 9 with an optional sign and an optional px / % suffix (7 020 texts) and 7 fractions / exponents: one numeric token whose integer flag is set exactly when there is no fraction and no exponent, with the decimal value
+//@   props C06
